@@ -1395,6 +1395,30 @@ def x2_alias_routes(ctx: Ctx):
     mg = [[show(a) for a in e.args] for e in em.calls('self.regions.merge')]
     ctx.check(['self._reg(each(self.def_use.defs))', 'self._reg(self.def_use.defs[each(same_object_defs(each(self.def_use.defs)))])'] in mg, ALIAS, mr, '_Builder._merge_redefinitions',
               'an element store and a phi are the same list as the definitions they come from', f'merges {mg}')
+    # ... for every definition whose value can hold a list *anywhere inside*: a tuple with a list in it that passes a
+    # branch or loop merge is the same tuple, with the same list.  The method is evaluated, from its source, on one phi per
+    # type shape.
+    afuncs = {s.name: s for s in ctx.repo.module(ALIAS).tree.body if isinstance(s, ast.FunctionDef)}
+    bmeths = {n: f for n, (_, _, f) in ctx.repo.methods(ALIAS, '_Builder', inherited=False).items()}
+    REALT = Obj('RealType')
+    shapes = {
+        'list[real]': (Obj('ListType', elt=REALT), True), 'tuple[list[real], real]': (Obj('TupleType', elts=(Obj('ListType', elt=REALT), REALT)), True),
+        'tuple[real, tuple[real, list[real]]]': (Obj('TupleType', elts=(REALT, Obj('TupleType', elts=(REALT, Obj('ListType', elt=REALT))))), True),
+        'list[tuple[real, real]]': (Obj('ListType', elt=Obj('TupleType', elts=(REALT, REALT))), True),
+        'tuple[real, real]': (Obj('TupleType', elts=(REALT, REALT)), False), 'real': (REALT, False),
+    }
+    for label, (ty, carries) in shapes.items():
+        d0, phi = Obj('AssignDef'), Obj('PhiDef')
+        merged: list = []
+        me = Obj('_Builder', def_use=Obj('du', defs=[d0, phi]), types=Obj('types', by_def={d0: ty, phi: ty}), regions=Obj('regions', merge=lambda a, b: merged.append((a, b))))
+        it = Interp(afuncs, bmeths, self_obj=me, is_a=lambda k, c: k == c, overrides={'same_object_defs': lambda d: (0,) if d is phi else (), 'self._reg': lambda d: d})
+        it.call_function(mr, [], bound_self=True)
+        unified = any(a is phi and b is d0 for a, b in merged)
+        if carries:
+            ctx.check(unified, ALIAS, mr, '_Builder._merge_redefinitions', f'a merge point of type {label} is the same object as its operands',
+                      'left apart: the list inside a tuple that went through an `if` aliases nothing, so a store through it widens no other name and `xs[0]` keeps a format the stored value exceeds')
+        else:
+            ctx.ok(ALIAS, mr, '_Builder._merge_redefinitions', f'type {label} carries no list: {"unified anyway" if unified else "no region"}')
     ve = ctx.fn(ALIAS, '_Builder._visit_expr')
     ctx.check(any(norm(s) == 'self._region_for(e)' for s in ve.body) and norm(ve.body[-1]) == 'return super()._visit_expr(e, ctx)', ALIAS, ve, '_Builder._visit_expr',
               'every expression visited gets a region (the net that makes the analysis total) and its children are still traversed', 'changed')
